@@ -123,6 +123,17 @@ def order_scenarios(rng, n):
                                 {'op': 'apply_batch', 'tasks': [{'idx': i} for i in range(k)], 'dur': {'kind': 'map', 'map': {}, 'default': 0.0}, 'get_timeout': 30},
                                 {'op': 'resume', 'of': 0}],
                         'relax_shape': True})
+        if rng.random() < .12:
+            # order_tasks switched on again (it already is) while a lazy call is open: the numbering of that call goes on where it was
+            nj = rng.choice([2, 3, 4])
+            nn = rng.randint(3 * nj, 5 * nj)
+            scs.append({'seed': rng.randint(0, 10 ** 6), 'pool': {'n_jobs': nj, 'start_method': rng.choice(['fork', 'threading']), 'order_tasks': True,
+                                                                  'pass_worker_id': rng.random() < .5},
+                        'ops': [{'op': rng.choice(['imap', 'imap_unordered']), 'n': nn, 'chunk_size': 1, 'max_tasks_active': rng.choice([1, 2, nj + 1]),
+                                 'consume': rng.randint(1, 3), 'elem': 'scalar'},
+                                {'op': 'set', 'what': 'order_tasks', 'value': True},
+                                {'op': 'resume', 'of': 0}],
+                        'relax_shape': True})
     return scs
 
 
